@@ -233,7 +233,11 @@ def run_sched_case(case, twin, repo):
     try:
         with contextlib.redirect_stdout(sink):
             perturb(pert)
-            sched = rec.call("__init__", make_scheduler, case["kind"], space, case["params"], case["random_seed"])
+            NO_CLOCK[0] = bool(case.get("no_clock"))   # no TimeKeeper passed: the scheduler falls back to real time
+            try:
+                sched = rec.call("__init__", make_scheduler, case["kind"], space, case["params"], case["random_seed"])
+            finally:
+                NO_CLOCK[0] = False
             max_t = case["params"].get("max_t", 4)
             workers = case["workers"]
             running, paused_epoch, configs = {}, {}, {}
